@@ -77,30 +77,31 @@ Record client := mkC {
   c_phase : phase;          (* where the download_blob coroutine is suspended *)
   c_now : Z;                (* virtual clock, seconds *)
   c_T : Z;                  (* peer_timeout *)
-  c_delivered : nat         (* number of successful _response_fut.set_result calls *)
+  c_delivered : nat;        (* number of successful _response_fut.set_result calls *)
+  c_unk : bool              (* download_blob's length_unknown: blob.length was None when this download started *)
 }.
 
-Definition set_open v c := mkC v (c_lost c) (c_closed_ev c) (c_att c) (c_fut c) (c_received c) (c_buf c) (c_has_w c) (c_w c) (c_hash c) (c_len c) (c_verified c) (c_phase c) (c_now c) (c_T c) (c_delivered c).
-Definition set_lost v c := mkC (c_open c) v (c_closed_ev c) (c_att c) (c_fut c) (c_received c) (c_buf c) (c_has_w c) (c_w c) (c_hash c) (c_len c) (c_verified c) (c_phase c) (c_now c) (c_T c) (c_delivered c).
-Definition set_fut v c := mkC (c_open c) (c_lost c) (c_closed_ev c) (c_att c) v (c_received c) (c_buf c) (c_has_w c) (c_w c) (c_hash c) (c_len c) (c_verified c) (c_phase c) (c_now c) (c_T c) (c_delivered c).
-Definition set_buf v c := mkC (c_open c) (c_lost c) (c_closed_ev c) (c_att c) (c_fut c) (c_received c) v (c_has_w c) (c_w c) (c_hash c) (c_len c) (c_verified c) (c_phase c) (c_now c) (c_T c) (c_delivered c).
-Definition set_len v c := mkC (c_open c) (c_lost c) (c_closed_ev c) (c_att c) (c_fut c) (c_received c) (c_buf c) (c_has_w c) (c_w c) (c_hash c) v (c_verified c) (c_phase c) (c_now c) (c_T c) (c_delivered c).
-Definition set_w v c := mkC (c_open c) (c_lost c) (c_closed_ev c) (c_att c) (c_fut c) (c_received c) (c_buf c) (c_has_w c) v (c_hash c) (c_len c) (c_verified c) (c_phase c) (c_now c) (c_T c) (c_delivered c).
-Definition set_has_w v c := mkC (c_open c) (c_lost c) (c_closed_ev c) (c_att c) (c_fut c) (c_received c) (c_buf c) v (c_w c) (c_hash c) (c_len c) (c_verified c) (c_phase c) (c_now c) (c_T c) (c_delivered c).
-Definition set_received v c := mkC (c_open c) (c_lost c) (c_closed_ev c) (c_att c) (c_fut c) v (c_buf c) (c_has_w c) (c_w c) (c_hash c) (c_len c) (c_verified c) (c_phase c) (c_now c) (c_T c) (c_delivered c).
-Definition set_verified v c := mkC (c_open c) (c_lost c) (c_closed_ev c) (c_att c) (c_fut c) (c_received c) (c_buf c) (c_has_w c) (c_w c) (c_hash c) (c_len c) v (c_phase c) (c_now c) (c_T c) (c_delivered c).
-Definition set_phase v c := mkC (c_open c) (c_lost c) (c_closed_ev c) (c_att c) (c_fut c) (c_received c) (c_buf c) (c_has_w c) (c_w c) (c_hash c) (c_len c) (c_verified c) v (c_now c) (c_T c) (c_delivered c).
-Definition set_now v c := mkC (c_open c) (c_lost c) (c_closed_ev c) (c_att c) (c_fut c) (c_received c) (c_buf c) (c_has_w c) (c_w c) (c_hash c) (c_len c) (c_verified c) (c_phase c) v (c_T c) (c_delivered c).
-Definition set_delivered v c := mkC (c_open c) (c_lost c) (c_closed_ev c) (c_att c) (c_fut c) (c_received c) (c_buf c) (c_has_w c) (c_w c) (c_hash c) (c_len c) (c_verified c) (c_phase c) (c_now c) (c_T c) v.
+Definition set_open v c := mkC v (c_lost c) (c_closed_ev c) (c_att c) (c_fut c) (c_received c) (c_buf c) (c_has_w c) (c_w c) (c_hash c) (c_len c) (c_verified c) (c_phase c) (c_now c) (c_T c) (c_delivered c) (c_unk c).
+Definition set_lost v c := mkC (c_open c) v (c_closed_ev c) (c_att c) (c_fut c) (c_received c) (c_buf c) (c_has_w c) (c_w c) (c_hash c) (c_len c) (c_verified c) (c_phase c) (c_now c) (c_T c) (c_delivered c) (c_unk c).
+Definition set_fut v c := mkC (c_open c) (c_lost c) (c_closed_ev c) (c_att c) v (c_received c) (c_buf c) (c_has_w c) (c_w c) (c_hash c) (c_len c) (c_verified c) (c_phase c) (c_now c) (c_T c) (c_delivered c) (c_unk c).
+Definition set_buf v c := mkC (c_open c) (c_lost c) (c_closed_ev c) (c_att c) (c_fut c) (c_received c) v (c_has_w c) (c_w c) (c_hash c) (c_len c) (c_verified c) (c_phase c) (c_now c) (c_T c) (c_delivered c) (c_unk c).
+Definition set_len v c := mkC (c_open c) (c_lost c) (c_closed_ev c) (c_att c) (c_fut c) (c_received c) (c_buf c) (c_has_w c) (c_w c) (c_hash c) v (c_verified c) (c_phase c) (c_now c) (c_T c) (c_delivered c) (c_unk c).
+Definition set_w v c := mkC (c_open c) (c_lost c) (c_closed_ev c) (c_att c) (c_fut c) (c_received c) (c_buf c) (c_has_w c) v (c_hash c) (c_len c) (c_verified c) (c_phase c) (c_now c) (c_T c) (c_delivered c) (c_unk c).
+Definition set_has_w v c := mkC (c_open c) (c_lost c) (c_closed_ev c) (c_att c) (c_fut c) (c_received c) (c_buf c) v (c_w c) (c_hash c) (c_len c) (c_verified c) (c_phase c) (c_now c) (c_T c) (c_delivered c) (c_unk c).
+Definition set_received v c := mkC (c_open c) (c_lost c) (c_closed_ev c) (c_att c) (c_fut c) v (c_buf c) (c_has_w c) (c_w c) (c_hash c) (c_len c) (c_verified c) (c_phase c) (c_now c) (c_T c) (c_delivered c) (c_unk c).
+Definition set_verified v c := mkC (c_open c) (c_lost c) (c_closed_ev c) (c_att c) (c_fut c) (c_received c) (c_buf c) (c_has_w c) (c_w c) (c_hash c) (c_len c) v (c_phase c) (c_now c) (c_T c) (c_delivered c) (c_unk c).
+Definition set_phase v c := mkC (c_open c) (c_lost c) (c_closed_ev c) (c_att c) (c_fut c) (c_received c) (c_buf c) (c_has_w c) (c_w c) (c_hash c) (c_len c) (c_verified c) v (c_now c) (c_T c) (c_delivered c) (c_unk c).
+Definition set_now v c := mkC (c_open c) (c_lost c) (c_closed_ev c) (c_att c) (c_fut c) (c_received c) (c_buf c) (c_has_w c) (c_w c) (c_hash c) (c_len c) (c_verified c) (c_phase c) v (c_T c) (c_delivered c) (c_unk c).
+Definition set_delivered v c := mkC (c_open c) (c_lost c) (c_closed_ev c) (c_att c) (c_fut c) (c_received c) (c_buf c) (c_has_w c) (c_w c) (c_hash c) (c_len c) (c_verified c) (c_phase c) (c_now c) (c_T c) v (c_unk c).
 
 (* a protocol object just connected (connection_made), no download started *)
 Definition fresh_client (now T : Z) : client :=
-  mkC true false false false FutPending 0 [] false new_writer [] None None PhIdle now T O.
+  mkC true false false false FutPending 0 [] false new_writer [] None None PhIdle now T O false.
 
 (* download_blob up to the first await: new future, new writer, request written, wait_for(fut, T) *)
 Definition start_download (hash : bytes) (known : option Z) (c : client) : client :=
   mkC (c_open c) (c_lost c) false true FutPending 0 (c_buf c) true new_writer hash known None
-      (PhAwaitResp (c_now c + c_T c)) (c_now c) (c_T c) O.
+      (PhAwaitResp (c_now c + c_T c)) (c_now c) (c_T c) O (match known with None => true | Some _ => false end).
 
 (* BlobExchangeClientProtocol.close *)
 Definition close (c : client) : client :=
@@ -108,7 +109,7 @@ Definition close (c : client) : client :=
       (match c_fut c with FutPending => if c_att c then FutCancelled else FutPending | f => f end)
       (c_received c) [] false
       (if c_has_w c && negb (w_closed (c_w c)) then close_handle (c_w c) else c_w c)
-      (c_hash c) (c_len c) (c_verified c) (c_phase c) (c_now c) (c_T c) (c_delivered c).
+      (c_hash c) (c_len c) (c_verified c) (c_phase c) (c_now c) (c_T c) (c_delivered c) (c_unk c).
 
 Definition fut_done (f : fut) : bool := match f with FutPending => false | _ => true end.
 
@@ -286,7 +287,10 @@ Definition run_callbacks (c : client) : client :=
 Definition finish (res : dlres) (c : client) : client :=
   (* download_blob's finally: close the writer handle if still open *)
   let c1 := if c_has_w c && negb (w_closed (c_w c)) then set_has_w false (set_w (close_handle (c_w c)) c) else c in
-  set_phase (PhDone res) c1.
+  (* ... then: a length learned from a peer that did not deliver the blob is forgotten *)
+  let c2 := if c_unk c1 && (match c_verified c1 with None => true | Some _ => false end) && w_closed (c_w c1)
+            then set_len None c1 else c1 in
+  set_phase (PhDone res) c2.
 
 (* the coroutine runs until it has to wait again *)
 Definition co_await_fin (c : client) : client :=
@@ -481,4 +485,35 @@ Fixpoint tsrv_trace (idleT transT : Z) (s : tsrv) (evs : list tev) : list bool :
   match evs with
   | [] => []
   | e :: r => let s' := tsrv_step idleT transT s e in tsrv_open s' :: tsrv_trace idleT transT s' r
+  end.
+
+(* ---------------------------------------------------------------- several writers of ONE blob (the peer race)
+   AbstractBlob.writers + writer_finished_callback: only a writer that finished with verified bytes closes the
+   handles of the others; a writer that failed (hash mismatch, too much data, cancelled) touches nobody. *)
+Fixpoint close_others (i : nat) (ws : list writer) : list writer :=
+  match ws, i with
+  | [], _ => []
+  | w :: r, O => w :: map close_handle r
+  | w :: r, S i' => close_handle w :: close_others i' r
+  end.
+
+Fixpoint set_nth (i : nat) (w : writer) (ws : list writer) : list writer :=
+  match ws, i with
+  | [], _ => []
+  | _ :: r, O => w :: r
+  | x :: r, S i' => x :: set_nth i' w r
+  end.
+
+Definition finished_callback (i : nat) (ws : list writer) : list writer :=
+  match nth_error ws i with
+  | Some w => match w_fin w with WResult => close_others i ws | _ => ws end
+  | None => ws
+  end.
+
+(* writer i of the blob is handed data, then the loop runs its done-callbacks *)
+Definition blob_write (H : bytes -> bytes) (hash : bytes) (len : option Z) (ws : list writer) (i : nat) (data : bytes)
+  : list writer :=
+  match nth_error ws i with
+  | Some w => finished_callback i (set_nth i (fst (writer_write H hash len w data)) ws)
+  | None => ws
   end.
